@@ -368,6 +368,7 @@ TYPE_II = {"number": CellType.NUMBER, "currency": CellType.CURRENCY, "text": Cel
            "bool": CellType.BOOL, "duration": CellType.DURATION, "empty": CellType.EMPTY, "rich": CellType.RICH_TEXT,
            "error": CellType.ERROR}
 MANDATORY_II = {"number": 0, "currency": 0, "text": 3, "date": 2, "bool": 1, "duration": 1, "rich": 4, "empty": None, "error": None}
+NEEDS_PAYLOAD = ("date", "bool", "duration")  # the decoder computes with the payload of these kinds: TypeError when it is absent
 NATURAL_II = {"number": 1, "currency": 1, "date": 4, "bool": 2, "duration": 2, "text": 0, "rich": 0, "empty": 0, "error": 0}
 
 # payload sets: class k of each of the three payload fields; (sign, coefficient, exponent) / microseconds / datetime
@@ -460,8 +461,8 @@ def eval_ii(ctx, flags, seen=None):
     try:
         c = _decode(1, 0, 0, rec, STUB)
     except Exception as e:  # noqa: BLE001
-        if not wellformed:
-            return MALFORMED_REJECTED  # e.g. a date record without its seconds field: not a record of this kind
+        if not wellformed and ctx.kind in NEEDS_PAYLOAD and type(e) is TypeError:
+            return MALFORMED_REJECTED  # a date/bool/duration record without its payload field: not a record of this kind
         return [({"layer": "ii", "mechanism": "decode", "pattern": "exception:" + type(e).__name__},
                  f"[kind={ctx.kind} flags={flags:#08x}] _from_storage raised {type(e).__name__}: {e} on {rec.hex()}")]
     ev = ctx.ev
@@ -518,7 +519,7 @@ def eval_case(case):
 
 
 def work_i(task):
-    kind, cls, rep, lo, hi, step = task
+    kind, cls, rep, lo, hi, step = task[:6]
     part = Part()
     digests = set()
     n = nx = 0
@@ -538,8 +539,11 @@ def work_i(task):
     part.count(f"i_records_{kind}", n)
     part.count("i_records_complete_subsets" if step == 1 else "i_records_payload_sweep", n)
     part.count("i_first_generation_records_with_extras_0x80", nx)
-    if lo == 0:
-        part.sample({"layer": "i", "kind": kind, "payload": _short(PAYLOADS_I[kind][cls][rep]), "masks": [lo, hi]})
+    if hi == NMASK and step == 1 and cls == 0 and rep == task[6]:
+        m = 0b101001010101
+        _, buf, _ = eval_i(kind, m, cls, rep)
+        part.sample({"layer": "i", "case": ["i", kind, m, cls, rep], "payload": _short(PAYLOADS_I[kind][cls][rep]),
+                     "attributes_set": [a for i, (a, _) in enumerate(OPT) if m >> i & 1], "record": buf.hex() if buf else None})
     d = part.dump()
     d["digests"] = digests
     return d
@@ -581,8 +585,8 @@ def work_ii(task):
     for name, c in zip(("ii:ok", "ii:payload-field-missing-rejected", "ii:payload-field-missing-fields-ok"), res_count):
         if c:
             part.outcome(name, c)
-    if lo == 0:
-        part.sample({"layer": "ii", "kind": kind, "mode": mode, "payload_set": ctx.payload_desc, "example_record": ctx.record((0x1FFFFF if mode == "full" else 0x1FFFF8) | nat).hex()})
+    if lo == 0 and (mode == "sub" or k == r % 3):
+        part.sample({"layer": "ii", "case": ["ii", kind, 0x155AA8 | nat, k, r], "kind": kind, "mode": mode, "payload_set": ctx.payload_desc, "example_record": ctx.record(0x155AA8 | nat).hex()})
     return part.dump()
 
 
@@ -621,6 +625,7 @@ def main():
         return run_replay(args, rp)
 
     run = Run(PID, "exploration", args)
+    run.max_samples = 18
     seed = args.seed
     thorough = args.tier == "thorough"
 
@@ -634,10 +639,10 @@ def main():
                 if rep in reps:  # complete product with all 2^12 attribute subsets
                     n_payloads += 1
                     for lo, hi in shards(NMASK, 2):
-                        tasks_i.append((kind, ci, rep, lo, hi, 1))
+                        tasks_i.append((kind, ci, rep, lo, hi, 1, reps[0]))
                 else:  # quick tier: every other representative still travels with no and with all attributes
                     n_sweep += 1
-                    tasks_i.append((kind, ci, rep, 0, NMASK, NMASK - 1))
+                    tasks_i.append((kind, ci, rep, 0, NMASK, NMASK - 1, -1))
     # ---- layer (ii)
     tasks_ii = []
     n_full = n_sub = 0
@@ -685,7 +690,7 @@ def main():
     run.assume("extras byte 6: the five format bits are compared with docs/Numbers.md; bit 0x80 is only required to imply a string id on records of "
                "freshly constructed cells (the library sets it only on cells that were themselves decoded from a record; counted, not judged)")
     run.assume("(ii) a subset lacking the payload field its type byte needs (date without seconds, bool/duration without double) is not a record of that kind: "
-               "an exception there is counted, not judged; if the decoder returns a cell its fields are judged all the same")
+               "the TypeError the decoder raises there is counted, not judged (any other exception is a failure); if the decoder returns a cell its fields are judged all the same")
     cov = {
         "distinct_nontrivial": len(digests) + cnt["ii_nontrivial"],
         "i_distinct_records_with_optional_attributes": len(digests),
